@@ -97,6 +97,7 @@ type StructInv struct {
 	Pkg         *types.Package
 	rootType    types.Type
 	fields      map[string]bool // field paths (heap-name style, e.g. "channelConnectionCommon.log") the clause mentions
+	embeddedRoots map[string]string // by-value struct types on the path of an invariant field -> their path prefix
 	stable      map[string]bool // ... that are written by the establishing functions only: their VALUE never changes afterwards
 }
 
